@@ -314,6 +314,20 @@ def run(ctx, rep):
     acquisition_guard(R, rep)
     cascade_exit(R, rep)
     same_security(R, rep, "R6")
+    # "rescaled by the splits and unsplits between": the pool's share count and the look-ahead's ratio are multiplied by a
+    # SPLIT's own ratio and DIVIDED by an UNSPLIT's (shared with C10-R1/R2). Multiplying by a rounded reciprocal instead loses or
+    # invents a fraction of a share whenever 1/ratio does not terminate (seeded change C02-s3)
+    import rules.c10 as c10
+    from core import Report
+    from roles import misaligned_index_keys
+    r2 = Report("tmp")
+    h = c10.split_handler(R, r2)
+    c10.ratio_ops(R, r2, h)
+    for o in r2.obligations:
+        rep.ob("R7", o["instance"], o["ok"], o["detail"], o["site"], key="R7:" + o["instance"])
+    # claims and offsets are read under the key they were booked under (shared with C09-R5)
+    import rules.c09 as c09
+    c09.shared_index_space(R, rep, "R8")
 
 
 def _touches_ratio(R, cb):
